@@ -34,7 +34,8 @@ inductive ExcClass where
   | valueError | unicodeError | unicodeDecodeError | unicodeEncodeError
   | lookupError | indexError | keyError
   | nameError | unboundLocalError
-  | arithmeticError | zeroDivisionError | assertionError
+  | arithmeticError | zeroDivisionError | overflowError | assertionError
+  | invalidVersion                -- packaging.version.InvalidVersion (a ValueError)
   deriving Repr, DecidableEq
 
 def ExcClass.parent : ExcClass → Option ExcClass
@@ -58,6 +59,8 @@ def ExcClass.parent : ExcClass → Option ExcClass
   | .unboundLocalError => some .nameError
   | .arithmeticError => some .exception
   | .zeroDivisionError => some .arithmeticError
+  | .overflowError => some .arithmeticError
+  | .invalidVersion => some .valueError
   | .assertionError => some .exception
 
 def ExcClass.isSubAux : Nat → ExcClass → ExcClass → Bool
